@@ -32,4 +32,15 @@ def deliver {Req Rep S : Type} (serve : S → Req → S × Rep) : S → List (Ta
   | _, [] => []
   | s, t :: ts => let (s', rep) := serve s t.req; (t.stream, rep) :: deliver serve s' ts
 
+/-- `Body::read_to_bytes(max_len)`, the HTTP/2 arm: DATA frames are appended until `max_len` bytes are collected; the
+remaining budget is recomputed from what has been collected before and after every frame. -/
+def h2Read (max : Nat) : List Bytes → Bytes → Bytes
+  | [], acc => acc
+  | f :: fs, acc =>
+    let left := max - acc.length
+    if left = 0 then acc else
+    let acc' := acc ++ f.take (min f.length left)
+    let left' := max - acc'.length
+    if left' = 0 then acc' else h2Read max fs acc'
+
 end Mux
